@@ -70,6 +70,10 @@ const (
 	dollar    = '$'
 	null      = rune(0)
 
+	// goyacc numbers the tokens of the grammar from here up, in Unicode's
+	// private use area (pathPrivate in grammar.go).
+	firstTokenNumber = 0xE000
+
 	// Numeric bases.
 	decimal int32 = 10
 	hex     int32 = 16
@@ -308,7 +312,14 @@ redo:
 				tok, ch = l.scanNumber(ch, true)
 			}
 		default:
-			tok, ch = l.scanOperator(ch)
+			if ch >= firstTokenNumber {
+				// Not a character of the grammar; and the parser would take
+				// its code point for the number of a token.
+				l.errorf("invalid character %q", ch)
+				tok, ch = stopTok, stopTok
+			} else {
+				tok, ch = l.scanOperator(ch)
+			}
 		}
 	}
 
